@@ -1018,6 +1018,9 @@ func (s *Server) handleDecline(req *dhcpv4.DHCPv4) {
 	}
 
 	if exists && lease != nil {
+		// The lease is gone: the fast path must stop answering from it
+		s.removeFromFastPathCache(mac, lease)
+
 		if pool := s.poolMgr.GetPool(lease.PoolID); pool != nil {
 			// Drop the client's pool binding first, otherwise the next
 			// DISCOVER from this client is offered the declined address again
@@ -1116,6 +1119,28 @@ func (s *Server) updateFastPathCache(mac net.HardwareAddr, lease *Lease, pool *P
 	return nil
 }
 
+// removeFromFastPathCache removes every eBPF cache entry that was written for
+// the lease (MAC, VLAN pair, circuit-id), so that the fast path no longer
+// answers for it. Errors (entry already absent) are ignored.
+func (s *Server) removeFromFastPathCache(mac net.HardwareAddr, lease *Lease) {
+	if s.loader == nil {
+		return
+	}
+
+	s.loader.RemoveSubscriber(ebpf.MACToUint64(mac))
+
+	if (lease.STag > 0 || lease.CTag > 0) && s.loader.HasVLANSupport() {
+		s.loader.RemoveVLANSubscriber(lease.STag, lease.CTag)
+	}
+
+	if len(lease.CircuitID) > 0 {
+		s.loader.RemoveCircuitIDMapping(lease.CircuitID)
+		if s.loader.HasCircuitIDSubscriberSupport() {
+			s.loader.RemoveCircuitIDSubscriber(lease.CircuitID)
+		}
+	}
+}
+
 // leaseCleanup periodically removes expired leases
 func (s *Server) leaseCleanup(ctx context.Context) {
 	ticker := time.NewTicker(time.Minute)
@@ -1166,13 +1191,9 @@ func (s *Server) cleanupExpiredLeases() {
 			pool.Release(lease.IP)
 		}
 
-		// Remove from fast path cache
-		if s.loader != nil {
-			hwAddr, _ := net.ParseMAC(mac)
-			if hwAddr != nil {
-				macU64 := ebpf.MACToUint64(hwAddr)
-				s.loader.RemoveSubscriber(macU64)
-			}
+		// Remove from fast path cache (MAC, VLAN pair and circuit-id entries)
+		if hwAddr, _ := net.ParseMAC(mac); hwAddr != nil {
+			s.removeFromFastPathCache(hwAddr, lease)
 		}
 	}
 	s.leasesMu.Unlock()
